@@ -801,7 +801,12 @@ class StateMachine:
             offset = lineno - self.input_offset - 1
 
         assert self.input_lines is not None
-        src, srcoffset = self.input_lines.info(offset)
+        try:
+            src, srcoffset = self.input_lines.info(offset)
+        except IndexError:
+            # `offset` is off the list (a message about the line after a block that ends
+            # the input): the source is unknown, the line is the one that was asked for.
+            return None, offset + self.input_offset + 1
         if srcoffset is not None:
             srcline: Optional[int] = srcoffset + 1
         else:
